@@ -1237,4 +1237,72 @@ example : (propGet 0 "pos" none (step ([exNew].foldl step init) (.mkSysX 0 exBox
 example : (propGet 1 "pos" (some (.int 1)) (step ([exNew].foldl step init) (.mkSysX 0 exBox [true, true, true] none none true true))).1
     = .ok ⟨.flt, [3], [.flt 4, .flt 4, .flt (1/2)]⟩ := by decide +kernel
 
+/-! ## round 5: degenerate per-atom shapes
+
+A per-atom entry that is itself a 1-vector or a 1x1 matrix has as many cells as a scalar.  The two places where the
+code could confuse them are the broadcast step of `view[key] = value` (every `Atoms(...)` and so every sub-Atoms goes
+through it) and the extraction of few atoms. -/
+
+/-- **the broadcast step of `view[key] = value` never touches the per-atom (trailing) shape.**  Whatever it is handed
+    (a scalar, ONE row, one row per atom; a literal or an array of the heap), what it passes on has shape
+    `natoms :: tail of the value's shape`: a one-row value of shape `1 :: t` becomes `n :: t` — also for `t = [1]`,
+    `[1, 1]`, whose cell count is that of a scalar (`np.repeat(value, natoms)` would give `[n]`). -/
+theorem viewBcast_keeps_trail (s : State) (n : Nat) (src src' : Src) (h : viewBcast s n src = pure src') :
+    (srcVal s src').shape = n :: (srcVal s src).shape.tail := by
+  rcases viewBcast_cases s n src with ⟨e, he⟩ | ⟨src'', he, hres⟩
+  · rw [he] at h
+    have := congrArg (fun m => (m s).1) h
+    simp [pure, M.pure, fail] at this
+  · rw [he] at h
+    have : src'' = src' := by
+      have := congrArg (fun m => (m s).1) h
+      simpa [pure, M.pure] using this
+    subst this
+    rcases hres with ⟨lv, t, h1, h2, _, _, _, h6⟩ | ⟨a, h1, h2, h3⟩
+    · subst h1
+      show lv.shape = _
+      rw [h2, h6]
+    · subst h1; subst h2
+      show (arrVal s a).shape = n :: (arrVal s a).shape.tail
+      simp only [arrVal, List.tail_cons]; rw [h3]
+
+/-- **`atoms[index]` keeps the per-atom shape of every property, however few atoms are selected.**  For every index
+    form (int, negative int, slice, list, mask) that selects `m` atoms — `m = 1` and `m = 0` included — every property of
+    the operand reappears in the result under its name with its dtype and with shape `m :: trail`, `trail` being the
+    operand's trailing shape as it is: `[1]` stays `[1]` (never `[]`), `[1, 1]` stays `[1, 1]`. -/
+theorem getItem_keeps_shape (s : State) (h : Inv s) (o : Nat) (ix : Index) (ho : o < s.objs.length) (o' : Nat) (s' : State)
+    (hrun : getItem o ix s = (.ok o', s')) :
+    ∃ sel, resolve (s.obj o).natoms (atomsIndex ix) = .ok sel ∧ (s'.obj o').natoms = sel.pos.length ∧
+      ∀ p ∈ (s.obj o).props, ∃ p' ∈ (s'.obj o').props, p'.key = p.key ∧
+        (arrVal s' p'.arr).shape = sel.pos.length :: arrTrail s p.arr ∧ (arrVal s' p'.arr).dt = arrDt s p.arr := by
+  obtain ⟨sel, hsel, hres⟩ := refines_getItem s h o ix ho o' s' hrun
+  refine ⟨sel, hsel, hres.natoms, fun p hp => ?_⟩
+  obtain ⟨p', hp', hc⟩ := hres.cols p hp
+  refine ⟨p', hp', hc.key, ?_, hc.dt⟩
+  have hlen : p'.arr.idx.length = sel.pos.length := by
+    have := congrArg List.length hc.rows
+    simpa [arrRows] using this
+  show p'.arr.idx.length :: arrTrail s' p'.arr = _
+  rw [hlen, hc.trail]
+
+/-- five atoms with a per-atom 1-vector `w` (shape `(5, 1)`) and a per-atom 1x1 matrix `m` given as ONE row. -/
+def exShape : State := [Op.new none (some ⟨.int, [5], [.int 1, .int 2, .int 1, .int 3, .int 2]⟩) none
+  [("w", ⟨.flt, [5, 1], [.flt 0, .flt 1, .flt 2, .flt 3, .flt 4]⟩), ("m", ⟨.int, [1, 1, 1], [.int 7]⟩)]].foldl step init
+
+example : Inv exShape := inv_reachable _
+-- the one-row value was broadcast to one 1x1 matrix per atom: shape (5, 1, 1), not (5,)
+example : (propGet 0 "m" none exShape).1 = .ok ⟨.int, [5, 1, 1], [.int 7, .int 7, .int 7, .int 7, .int 7]⟩ := by decide +kernel
+-- ONE atom extracted by int / negative int / one-element slice / list / mask: `w` keeps shape (1, 1), `m` (1, 1, 1)
+example : (propGet 1 "w" none (step exShape (.getItem 0 (.int 2)))).1 = .ok ⟨.flt, [1, 1], [.flt 2]⟩ := by decide +kernel
+example : (propGet 1 "w" none (step exShape (.getItem 0 (.int (-1))))).1 = .ok ⟨.flt, [1, 1], [.flt 4]⟩ := by decide +kernel
+example : (propGet 1 "w" none (step exShape (.getItem 0 (.slice (some 2) (some 3) none)))).1 = .ok ⟨.flt, [1, 1], [.flt 2]⟩ := by
+  decide +kernel
+example : (propGet 1 "m" none (step exShape (.getItem 0 (.list [3])))).1 = .ok ⟨.int, [1, 1, 1], [.int 7]⟩ := by decide +kernel
+example : (propGet 1 "w" none (step exShape (.getItem 0 (.mask [false, false, false, true, false])))).1
+    = .ok ⟨.flt, [1, 1], [.flt 3]⟩ := by decide +kernel
+-- a keyed read of one atom by int drops the atom axis only: shape (1,), not ()
+example : (propGet 0 "w" (some (.int 2)) exShape).1 = .ok ⟨.flt, [1], [.flt 2]⟩ := by decide +kernel
+-- the hypotheses of `getItem_keeps_shape` hold here
+example : (getItem 0 (.int 2) exShape).1 = .ok 1 := by decide +kernel
+
 end Atomman.C06
